@@ -222,13 +222,13 @@ def run(run):
             F = facts.load('w_core', c, v)
             E = effects.Effects(F)
             run.count('fact units')
-            outcome_rules(run, F, E)
-            plan_exists(run, F, E)
-            reset_completeness(run, F, E, 'C09.f')
-            c08.status_reports(run, F, E, 'C09.g')
-            cycle_status_reset(run, F, E)
-            c08.status_rules(run, F, E)
-            records.definite_init(run, 'C09.c', F)
+            run.guard('outcome rules', outcome_rules, run, F, E)
+            run.guard('plan exists', plan_exists, run, F, E)
+            run.guard('reset completeness', reset_completeness, run, F, E, 'C09.f')
+            run.guard('status reports', c08.status_reports, run, F, E, 'C09.g')
+            run.guard('cycle status reset', cycle_status_reset, run, F, E)
+            run.guard('status rules', c08.status_rules, run, F, E)
+            run.guard('definite init', records.definite_init, run, 'C09.c', F)
             facts.drop(F)
             cfgmod.clear_cache()
     for o in run.obligations:
